@@ -36,6 +36,40 @@ def verify(src):
     return out
 
 
+def fast(ids, workers=8):
+    """same verdicts as `run`, but each seed is applied to its own scratch copy of /repo/cardutil and seeds run in parallel
+    (used while developing; the recorded RESULTS.json comes from `run`, which patches /repo itself)"""
+    from concurrent.futures import ThreadPoolExecutor
+    man = json.load(open(f'{V}/MANIFEST.json'))
+    props = [c['property_id'] for c in man['checks']]
+    assert sh('git -C /repo status --porcelain').stdout.strip() == '', 'repo not clean'
+
+    def one(sid):
+        tmp = tempfile.mkdtemp(prefix='cvsd_')
+        try:
+            shutil.copytree('/repo/cardutil', os.path.join(tmp, 'cardutil'), ignore=shutil.ignore_patterns('__pycache__'))
+            r = subprocess.run(['patch', '-p1', '-s', '-d', tmp, '-i', f'{V}/seeded/{sid}/patch.diff'], capture_output=True, text=True)
+            if r.returncode != 0:
+                return sid, {'patch': 'does not apply'}
+            res = {}
+            for pr in props:
+                r = subprocess.run(['python3', '-m', 'cardverif', 'check', pr, '--repo', tmp], cwd=V, capture_output=True, text=True,
+                                   env={**os.environ, 'CARDVERIF_NOEVIDENCE': '1'})
+                if r.returncode != 0:
+                    obs = sorted({l.split()[1] for l in r.stdout.splitlines() if l.startswith('REFUTED ')})
+                    und = sorted({l.split('obligation=')[1].split()[0] for l in r.stdout.splitlines() if l.startswith('UNDECIDED ')})
+                    res[pr] = {'exit': r.returncode, 'refuted': obs, 'undecided': und}
+            return sid, res
+        finally:
+            shutil.rmtree(tmp, ignore_errors=True)
+    results = {}
+    with ThreadPoolExecutor(workers) as ex:
+        for sid, res in ex.map(one, ids):
+            results[sid] = res
+            print(sid, json.dumps(res))
+    return results
+
+
 def run(ids):
     man = json.load(open(f'{V}/MANIFEST.json'))
     props = [c['property_id'] for c in man['checks']]
@@ -65,5 +99,9 @@ if __name__ == '__main__':
         verify(sys.argv[2])
     else:
         ids = sys.argv[2:] or sorted(d for d in os.listdir(f'{V}/seeded') if os.path.isdir(f'{V}/seeded/{d}'))
-        r = run(ids)
-        json.dump(r, open(f'{V}/seeded/RESULTS.json', 'w'), indent=1)
+        if sys.argv[1] == 'fast':
+            r = fast(ids)
+            json.dump(r, open(f'{V}/seeded/RESULTS.fast.json', 'w'), indent=1)
+        else:
+            r = run(ids)
+            json.dump(r, open(f'{V}/seeded/RESULTS.json', 'w'), indent=1)
